@@ -82,32 +82,48 @@ theorem nth_eq (sh : Shape) (n : Nat) :
 /-- offset of the `k`-th cell of the window in row-major order -/
 def offAt (sh : Shape) (k : Nat) : Nat := sh.offset (k / sh.width) (k % sh.width)
 
-theorem iterNth_eq (sh : Shape) (data : List α) (index n : Nat) :
-    iterNth sh data index n = (index + n + 1,
+/-- two saturating additions are one clamped sum -/
+theorem satAdd_satAdd (index n : Nat) : satAdd (satAdd index n) 1 = min (index + n + 1) usizeMax := by
+  unfold satAdd
+  generalize usizeMax = M
+  split <;> split <;> omega
+
+/-- where the advanced index points: the same cell as without saturation, or beyond every window -/
+theorem sat_index {hw index n M : Nat} (hbig : hw < M) :
+    (min (index + n + 1) M - 1 < hw ↔ index + n < hw) ∧
+    (index + n < hw → min (index + n + 1) M - 1 = index + n) := by
+  omega
+
+theorem iterNth_eq (sh : Shape) (data : List α) (index n : Nat) (hbig : sh.height * sh.width < usizeMax) :
+    iterNth sh data index n = (min (index + n + 1) usizeMax,
       if index + n < sh.height * sh.width then (data[offAt sh (index + n)]?).map (fun x => (offAt sh (index + n), x))
       else none) := by
   unfold iterNth
-  simp only [Nat.add_sub_cancel, nth_eq]
+  simp only [satAdd_satAdd, nth_eq]
+  have ⟨h1, h2⟩ := sat_index (index := index) (n := n) hbig
   by_cases hk : index + n < sh.height * sh.width
-  · simp only [hk, if_true, offAt]
+  · simp only [h1.mpr hk, hk, if_true, offAt, h2 hk]
     cases data[sh.offset ((index + n) / sh.width) ((index + n) % sh.width)]? <;> simp
-  · simp [hk]
+  · have : ¬ min (index + n + 1) usizeMax - 1 < sh.height * sh.width := fun h => hk (h1.mp h)
+    simp [hk, this]
 
-theorem iterMutNth_eq (sh : Shape) (len : Nat) (index n : Nat) :
-    iterMutNth sh len index n = (index + n + 1,
+theorem iterMutNth_eq (sh : Shape) (len : Nat) (index n : Nat) (hbig : sh.height * sh.width < usizeMax) :
+    iterMutNth sh len index n = (min (index + n + 1) usizeMax,
       if index + n < sh.height * sh.width ∧ offAt sh (index + n) < len then some (offAt sh (index + n)) else none) := by
   unfold iterMutNth
-  simp only [Nat.add_sub_cancel, nth_eq]
+  simp only [satAdd_satAdd, nth_eq]
+  have ⟨h1, h2⟩ := sat_index (index := index) (n := n) hbig
   by_cases hk : index + n < sh.height * sh.width
-  · simp only [hk, true_and, offAt]
+  · simp only [h1.mpr hk, hk, if_true, true_and, offAt, h2 hk]
     by_cases hl : sh.offset ((index + n) / sh.width) ((index + n) % sh.width) < len
     · have : ¬ sh.offset ((index + n) / sh.width) ((index + n) % sh.width) ≥ len := by omega
       simp [hl, this]
     · have : sh.offset ((index + n) / sh.width) ((index + n) % sh.width) ≥ len := by omega
       simp [hl, this]
-  · simp [hk]
+  · have : ¬ min (index + n + 1) usizeMax - 1 < sh.height * sh.width := fun h => hk (h1.mp h)
+    simp [hk, this]
 
-theorem iterGo_eq (sh : Shape) (data : List α) (L : List (Nat × α))
+theorem iterGo_eq (sh : Shape) (data : List α) (L : List (Nat × α)) (hbig : sh.height * sh.width < usizeMax)
     (hlen : L.length = sh.height * sh.width)
     (hL : ∀ k, k < sh.height * sh.width → (data[offAt sh k]?).map (fun x => (offAt sh k, x)) = L[k]?) :
     ∀ fuel index, sh.height * sh.width - index < fuel → iterGo sh data fuel index = some (L.drop index) := by
@@ -117,19 +133,20 @@ theorem iterGo_eq (sh : Shape) (data : List α) (L : List (Nat × α))
   | succ fuel ih =>
     intro index h
     unfold iterGo
-    rw [iterNth_eq]
+    rw [iterNth_eq _ _ _ _ hbig]
     by_cases hk : index < sh.height * sh.width
     · simp only [Nat.add_zero, if_pos hk]
       rw [hL index hk]
       have hi : index < L.length := by omega
       rw [List.getElem?_eq_getElem hi]
       simp only
-      rw [ih (index + 1) (by omega)]
+      have hmin : min (index + 1) usizeMax = index + 1 := by omega
+      rw [hmin, ih (index + 1) (by omega)]
       rw [List.drop_eq_getElem_cons hi]; rfl
     · simp only [Nat.add_zero, if_neg hk]
       rw [List.drop_eq_nil_of_le (by omega)]
 
-theorem iterMutGo_eq (sh : Shape) (len : Nat) (L : List Nat)
+theorem iterMutGo_eq (sh : Shape) (len : Nat) (L : List Nat) (hbig : sh.height * sh.width < usizeMax)
     (hlen : L.length = sh.height * sh.width)
     (hL : ∀ k, k < sh.height * sh.width → offAt sh k < len ∧ L[k]? = some (offAt sh k)) :
     ∀ fuel index, sh.height * sh.width - index < fuel → iterMutGo sh len fuel index = some (L.drop index) := by
@@ -139,20 +156,20 @@ theorem iterMutGo_eq (sh : Shape) (len : Nat) (L : List Nat)
   | succ fuel ih =>
     intro index h
     unfold iterMutGo
-    rw [iterMutNth_eq]
+    rw [iterMutNth_eq _ _ _ _ hbig]
     by_cases hk : index < sh.height * sh.width
     · have hk' : index < sh.height * sh.width ∧ offAt sh index < len := ⟨hk, (hL index hk).1⟩
       simp only [Nat.add_zero, if_pos hk']
       have hi : index < L.length := by omega
       have := (hL index hk).2
       rw [List.getElem?_eq_getElem hi] at this
-      rw [ih (index + 1) (by omega)]
+      have hmin : min (index + 1) usizeMax = index + 1 := by omega
+      rw [hmin, ih (index + 1) (by omega)]
       simp only [Option.some.injEq] at this
       rw [List.drop_eq_getElem_cons hi, this]; rfl
     · have hk' : ¬ (index < sh.height * sh.width ∧ offAt sh index < len) := by omega
       simp only [Nat.add_zero, if_neg hk']
       rw [List.drop_eq_nil_of_le (by omega)]
-
 
 /-! ### loops -/
 theorem forIn?_append (l1 l2 : List ι) (f : ι → σ → Option σ) (s : σ) :
@@ -447,7 +464,8 @@ theorem fillWith_spec {sh : Shape} {data : List α} {W : List (List α)} (R : Re
   rfl
 
 
-theorem insertGo_spec {sh : Shape} (S : Strides sh) (len : Nat) (hb : ∀ o ∈ offs sh, o < len) :
+theorem insertGo_spec {sh : Shape} (S : Strides sh) (len : Nat) (hb : ∀ o ∈ offs sh, o < len)
+    (hbig : sh.height * sh.width < usizeMax) :
     ∀ (items : List α) (index : Nat) (st : MutSt α), st.data.length = len →
       (insertGo sh items index st).touched = st.touched ++ (((offs sh).drop index).zip items).map (·.1) ∧
       (insertGo sh items index st).data.length = len ∧
@@ -459,9 +477,11 @@ theorem insertGo_spec {sh : Shape} (S : Strides sh) (len : Nat) (hb : ∀ o ∈ 
   | cons src rest ih =>
     intro index st hl
     unfold insertGo
-    rw [iterMutNth_eq]
+    rw [iterMutNth_eq _ _ _ _ hbig]
     by_cases hk : index < sh.height * sh.width
-    · have hi : index < (offs sh).length := by rw [offs_length]; exact hk
+    · have hmin : min (index + 0 + 1) usizeMax = index + 1 := by omega
+      rw [hmin]
+      have hi : index < (offs sh).length := by rw [offs_length]; exact hk
       have hget : (offs sh)[index] = offAt sh index := by
         have := offs_get sh index
         rw [if_pos hk, List.getElem?_eq_getElem hi] at this
@@ -508,27 +528,35 @@ theorem insertGo_spec {sh : Shape} (S : Strides sh) (len : Nat) (hb : ∀ o ∈ 
       have : (offs sh).drop index = [] := List.drop_eq_nil_of_le (by rw [offs_length]; omega)
       simp [this, hl]
 
-/-- `SurfaceMut::insert`: the items go to the window's cells from row-major position
-`row * width + col` on, as far as items and cells reach; nothing else changes -/
+/-- `SurfaceMut::insert`: unless the index computation overflows `usize`, the items go to the window's
+cells from row-major position `row * width + col` on, as far as items and cells reach; nothing else changes -/
 theorem insert_spec {sh : Shape} {data : List α} {W : List (List α)} (R : Rel sh data W) (S : Strides sh)
-    (row col : Nat) (items : List α) :
-    let ws := ((offs sh).drop (row * sh.width + col)).zip items
-    let st := SurfModel.Shape.insert sh data row col items
-    st.touched = ws.map (·.1) ∧ st.data.length = data.length ∧
-    (∀ i, i ∉ ws.map (·.1) → st.data[i]? = data[i]?) ∧ (∀ w ∈ ws, st.data[w.1]? = some w.2) := by
-  intro ws st
-  have hit : (if row * sh.width + col > 0 then (iterMutNth sh data.length 0 (row * sh.width + col - 1)).1 else 0)
-      = row * sh.width + col := by
-    split
-    · rw [iterMutNth_eq]; simp only; omega
-    · omega
-  have := insertGo_spec S data.length R.offs_lt items (row * sh.width + col) { data := data, touched := [] } rfl
-  have e : SurfModel.Shape.insert sh data row col items
-      = insertGo sh items (row * sh.width + col) { data := data, touched := [] } := by
+    (hbig : sh.height * sh.width < usizeMax) (row col : Nat) (items : List α) :
+    (row * sh.width + col > usizeMax → SurfModel.Shape.insert sh data row col items = none) ∧
+    (row * sh.width + col ≤ usizeMax →
+      ∃ st, SurfModel.Shape.insert sh data row col items = some st ∧
+        let ws := ((offs sh).drop (row * sh.width + col)).zip items
+        st.touched = ws.map (·.1) ∧ st.data.length = data.length ∧
+        (∀ i, i ∉ ws.map (·.1) → st.data[i]? = data[i]?) ∧ (∀ w ∈ ws, st.data[w.1]? = some w.2)) := by
+  constructor
+  · intro hov
     unfold SurfModel.Shape.insert
-    simp only [hit]
-  simp only [st, ws, e]
-  simpa using this
+    by_cases h1 : row * sh.width > usizeMax
+    · simp [h1]
+    · simp [h1, hov]
+  · intro hok
+    have h1 : ¬ row * sh.width > usizeMax := by omega
+    have h2 : ¬ row * sh.width + col > usizeMax := by omega
+    have hit : (if row * sh.width + col > 0 then (iterMutNth sh data.length 0 (row * sh.width + col - 1)).1 else 0)
+        = row * sh.width + col := by
+      split
+      · rw [iterMutNth_eq _ _ _ _ hbig]; simp only; omega
+      · omega
+    refine ⟨insertGo sh items (row * sh.width + col) { data := data, touched := [] }, ?_, ?_⟩
+    · unfold SurfModel.Shape.insert
+      simp only [h1, h2, if_false, hit]
+    · have := insertGo_spec S data.length R.offs_lt hbig items (row * sh.width + col) { data := data, touched := [] } rfl
+      simpa using this
 
 /-- `Surface::map`: the new surface holds `f(pos, cell)` for the window's cells in row-major order, and
 exactly the window's cells are read, each once -/
@@ -568,27 +596,31 @@ theorem Rel.zip_get {sh : Shape} {data : List α} {W : List (List α)} (R : Rel 
     cases data[sh.offset (k / sh.width) (k % sh.width)]? <;> rfl
   · simp [hk]
 
-theorem iter_spec {sh : Shape} {data : List α} {W : List (List α)} (R : Rel sh data W) :
+theorem iter_spec {sh : Shape} {data : List α} {W : List (List α)} (R : Rel sh data W)
+    (hbig : sh.height * sh.width < usizeMax) :
     iter sh data = some ((offs sh).zip W.flatten) := by
   unfold iter
-  rw [iterGo_eq sh data ((offs sh).zip W.flatten) R.zip_length
+  rw [iterGo_eq sh data ((offs sh).zip W.flatten) hbig R.zip_length
     (fun k hk => by rw [R.zip_get, if_pos hk]) _ 0 (by omega)]
   rfl
 
-theorem iterMut_spec {sh : Shape} {data : List α} {W : List (List α)} (R : Rel sh data W) :
+theorem iterMut_spec {sh : Shape} {data : List α} {W : List (List α)} (R : Rel sh data W)
+    (hbig : sh.height * sh.width < usizeMax) :
     iterMut sh data.length = some (offs sh) := by
   unfold iterMut
-  rw [iterMutGo_eq sh data.length (offs sh) (offs_length sh)
+  rw [iterMutGo_eq sh data.length (offs sh) hbig (offs_length sh)
     (fun k hk => ⟨R.offAt_lt hk, by rw [offs_get, if_pos hk]⟩) _ 0 (by omega)]
   rfl
 
-theorem iterNth_spec {sh : Shape} {data : List α} {W : List (List α)} (R : Rel sh data W) (index n : Nat) :
-    iterNth sh data index n = (index + n + 1, ((offs sh).zip W.flatten)[index + n]?) := by
-  rw [iterNth_eq, R.zip_get]
+theorem iterNth_spec {sh : Shape} {data : List α} {W : List (List α)} (R : Rel sh data W)
+    (hbig : sh.height * sh.width < usizeMax) (index n : Nat) :
+    iterNth sh data index n = (min (index + n + 1) usizeMax, ((offs sh).zip W.flatten)[index + n]?) := by
+  rw [iterNth_eq _ _ _ _ hbig, R.zip_get]
 
-theorem iterMutNth_spec {sh : Shape} {data : List α} {W : List (List α)} (R : Rel sh data W) (index n : Nat) :
-    iterMutNth sh data.length index n = (index + n + 1, (offs sh)[index + n]?) := by
-  rw [iterMutNth_eq, offs_get]
+theorem iterMutNth_spec {sh : Shape} {data : List α} {W : List (List α)} (R : Rel sh data W)
+    (hbig : sh.height * sh.width < usizeMax) (index n : Nat) :
+    iterMutNth sh data.length index n = (min (index + n + 1) usizeMax, (offs sh)[index + n]?) := by
+  rw [iterMutNth_eq _ _ _ _ hbig, offs_get]
   by_cases hk : index + n < sh.height * sh.width
   · have := R.offAt_lt hk
     simp [hk, this]
@@ -601,5 +633,26 @@ theorem Rel.zip_fst {sh : Shape} {data : List α} {W : List (List α)} (R : Rel 
 theorem Rel.zip_snd {sh : Shape} {data : List α} {W : List (List α)} (R : Rel sh data W) :
     ((offs sh).zip W.flatten).map (·.2) = W.flatten :=
   List.map_snd_zip (by rw [offs_length, R.flat_length]; omega)
+
+/-- `SurfaceMut::set`: panics outside of the window; inside it writes exactly the cell at `offset` and
+returns its old value -/
+theorem set_spec {sh : Shape} {data : List α} {W : List (List α)} (R : Rel sh data W) (row col : Nat) (item : α) :
+    (¬ (row < sh.height ∧ col < sh.width) → SurfModel.Shape.set sh data row col item = none) ∧
+    (row < sh.height ∧ col < sh.width → ∃ old, cellAt W row col = some old ∧
+      SurfModel.Shape.set sh data row col item
+        = some ({ data := data.set (sh.offset row col) item, touched := [sh.offset row col] }, old)) := by
+  constructor
+  · intro hout
+    unfold SurfModel.Shape.set
+    by_cases h1 : row < sh.height
+    · have h2 : ¬ col < sh.width := fun h => hout ⟨h1, h⟩
+      simp [h1, h2]
+    · simp [h1]
+  · intro ⟨h1, h2⟩
+    obtain ⟨old, hold⟩ := R.cell_some row col h1 h2
+    refine ⟨old, hold, ?_⟩
+    rw [R.cell row col h1 h2] at hold
+    unfold SurfModel.Shape.set
+    simp [h1, h2, hold]
 
 end SurfProofs.Lemmas.Shape
